@@ -150,7 +150,8 @@ func BfdHistories(cfg Cfg, r *rand.Rand, n int, out *vt.Writer, emit emitFn) {
 		}
 	}
 	for h := 0; h < n; h++ {
-		e, err := NewEnv(down, false, true)
+		// every second history on a router whose sibling links are detached links (non-Linux flavour)
+		e, err := newEnv(down, LocalIA, "verif-master-key-0-of-the-local-as", nil, false, true, h%2 == 1)
 		if err != nil {
 			vt.Fatal("router: %v", err)
 		}
@@ -186,13 +187,15 @@ func BfdHistories(cfg Cfg, r *rand.Rand, n int, out *vt.Writer, emit emitFn) {
 			if remote == layers.BFDStateDown {
 				msg.YourDiscriminator = 0
 			}
+			if bfd.VerifShouldDiscard(msg) {
+				continue // would not reach the state machine
+			}
 			drain()
 			sess.ReceiveMessage(msg)
-			got, ok := await(sess, 10*time.Second)
+			got, ok := await(sess, 300*time.Second)
 			if !ok {
-				// the message was not taken into account (discarded before the state machine): no
-				// state change to log
-				continue
+				// the session never reported the step: the logged state would be stale
+				vt.Fatal("BFD session did not process a control message within 300 s")
 			}
 			for _, j := range down.Ifs { // all interfaces behind the same link share the session
 				if e.V.Link(uint16(j.ID)) == e.V.Link(uint16(i.ID)) {
